@@ -17,6 +17,7 @@ THEOREMS = [
     "HgVerif.Switch.no_slot_logic_error",
     "HgVerif.Switch.segment_follows_branch",
     "HgVerif.Switch.switch_follows_selected",
+    "HgVerif.Switch.follows_selected_unique",
 ]
 CXX_TARGETS = ["hgv_switch"]
 RULE = ("key/input histories replayed into a REAL graph replay(key: TS<int>|TS<str>), replay(x)[, replay(y)] -> "
@@ -574,6 +575,9 @@ def alarm_filter(stream, case, impl_out, model_out):
         return True, ["line counts differ"]
     for i, (a, b) in enumerate(zip(impl_out, model_out)):
         if a == b:
+            continue
+        if a == "idle" and b.startswith("rec=- ") and " ev=- " in b:
+            notes.append("line %d: the root graph was not evaluated in a quiet cycle" % i)
             continue
         if a.startswith("end ev=") and b.startswith("end ev="):
             ea, eb = a[7:].split(","), b[7:].split(",")
